@@ -86,7 +86,9 @@ C08Step ==
   /\ (Op = "encrypt_subject") =>
         /\ ErrStep <=> (IsEnc(Subject(Src)) \/ (~IsNode(Src) /\ IsElided(Src)))
         /\ OkStep => (Dg(Res) = Dg(Src) /\ IsEnc(Subject(Res)) /\ Assertions(Res) = Assertions(Src))
-  /\ (Op = "decrypt" /\ OkStep) => Dg(Wrap(Res)) = Dg(Subject(Src))
+  (* decrypt = decrypt_subject then unwrap: what comes back is the content of the wrapped subject *)
+  /\ (Op = "decrypt" /\ OkStep) =>
+        LET d == DecryptSubject(Src, Arg(2)) IN IsOk(d) /\ Dg(Wrap(Res)) = Dg(Subject(Val(d)))
 C08Prop == [][C08Step]_vars
 (* encrypt then decrypt with the same key is the identity; any other key fails *)
 C08Laws ==
